@@ -143,6 +143,12 @@ func judgeFor(c *Cfg, prop, family string, sc *scen.Scenario) ([]scen.Outcome, [
 		for _, e := range outs[i].Events {
 			c.Rep.Count("events."+e.Phase, 1)
 		}
+		if i > 0 && mrs[i-1].Trunc && !(sc.Inject.OneRun && sc.Inject.Run == i-1) {
+			// the model gave up on the previous run (step bound): it no longer knows what that run consumed, so the
+			// later runs of this scenario cannot be judged
+			c.Rep.Count("unjudged.runs_after_model_step_bound", 1)
+			break
+		}
 		jsc := sc
 		if sc.Inject.OneRun {
 			if sc.Inject.Run == i {
@@ -190,6 +196,10 @@ func replayScenario(c *Cfg, prop string, spec json.RawMessage) {
 		for _, e := range outs[i].Events {
 			b, _ := json.Marshal(e)
 			fmt.Println("   ", string(b))
+		}
+		if i > 0 && mrs[i-1].Trunc && !(cs.Scenario.Inject.OneRun && cs.Scenario.Inject.Run == i-1) {
+			fmt.Println("  (the model hit its step bound in the previous run: later runs are not judged)")
+			break
 		}
 		jsc := cs.Scenario
 		if jsc.Inject.OneRun {
